@@ -88,13 +88,19 @@ class Ctx:
         self.reseed()
 
     def reseed(self):
+        """the library's own use of random / numpy.random (tie-break jitter, sampling) is seeded from VERIF_SEED AND the case, so that
+        different cases see different random streams while every case stays exactly replayable"""
         import random
         import numpy as np
-        random.seed(self.seed)
-        np.random.seed(self.seed % (2 ** 32))
+        try:
+            cs = int.from_bytes(h64((self.seed, json.dumps(self._case, sort_keys=True, default=str))), 'big') % (2 ** 32)
+        except Exception:  # noqa
+            cs = self.seed % (2 ** 32)
+        random.seed(cs)
+        np.random.seed(cs)
         t = sys.modules.get('torch')
         if t is not None and getattr(self, 'seed_torch', False):
-            t.manual_seed(self.seed)
+            t.manual_seed(cs)
 
     def executed(self, n=1):
         self.transitions += n
